@@ -134,18 +134,30 @@ func init() {
 			so := r.P.Func("workers/sourcerunner", "(*SourceRunner).sendOperatorEvent")
 			r.whoMayCall(adv, false, map[string]string{so.Name(): ""})
 			r.whoMayCall(cur, false, map[string]string{so.Name(): ""})
-			route := r.P.FuncObj("workers/sourcerunner", "(*operatorCluster).routeEvent")
+			// "route": cluster.routeEvent(key, event) or the same two lines inlined (routeCallOf)
+			bodyRoutes := func(n ast.Node) bool {
+				found := false
+				inspect(n, func(m ast.Node) bool {
+					if call, ok := m.(*ast.CallExpr); ok {
+						if _, _, is := r.routeCallOf(so.Pkg.TypesInfo, call); is {
+							found = true
+						}
+					}
+					return !found
+				})
+				return found
+			}
 			info := so.Pkg.TypesInfo
 			// per element of the async result: AdvanceTime(event.Timestamp) precedes routeEvent
 			var loop ast.Stmt // range or counted loop whose body routes the events
 			inspect(so.Decl.Body, func(nd ast.Node) bool {
 				switch x := nd.(type) {
 				case *ast.RangeStmt:
-					if r.exprCalls(info, x.Body, route) {
+					if bodyRoutes(x.Body) {
 						loop = x
 					}
 				case *ast.ForStmt:
-					if r.exprCalls(info, x.Body, route) {
+					if bodyRoutes(x.Body) {
 						loop = x
 					}
 				}
@@ -189,16 +201,20 @@ func init() {
 					s.A = 1
 					return []pathsim.State{s}
 				}
-				if callTo(route)(c, ev) {
+				routeKey := ast.Expr(nil)
+				if ev.Kind == pathsim.EvCall && ev.Call != nil && !ev.Go && !ev.Deferred {
+					if k, _, is := r.routeCallOf(c.Info, ev.Call); is {
+						routeKey = k
+					}
+				}
+				if routeKey != nil {
 					// B: an event was routed in this iteration; A: its timestamp was fed to the watermark source.
 					// Both happen on the single consumer goroutine between two items of outputStream, so their
 					// relative order inside the iteration is immaterial; what matters is that no routed event
 					// leaves the iteration without having advanced the watermark source.
 					s.B = 1
-					if len(ev.Call.Args) >= 1 {
-						if routed := baseOf(c, ev.Call.Args[0], "Key"); routed != nil {
-							routedObj = routed
-						}
+					if routed := baseOf(c, routeKey, "Key"); routed != nil {
+						routedObj = routed
 					}
 					return []pathsim.State{s}
 				}
@@ -293,6 +309,26 @@ func init() {
 						return true
 					})
 				}
+				if stamped && !sent {
+					// the broadcast hoisted behind the switch: the case hands the watermark to a variable
+					// that the shared broadcastEvent call after the switch sends
+					var carrier types.Object
+					for _, st := range cc.Body {
+						if as, ok := st.(*ast.AssignStmt); ok && len(as.Lhs) == 1 && len(as.Rhs) == 1 {
+							if sel, ok := ast.Unparen(as.Rhs[0]).(*ast.SelectorExpr); ok && sel.Sel.Name == "Watermark" {
+								carrier = prog.IdentObjPlain(info, as.Lhs[0])
+							}
+						}
+					}
+					if carrier != nil {
+						inspect(so.Decl.Body, func(m ast.Node) bool {
+							if call, ok := m.(*ast.CallExpr); ok && call.Pos() > cc.End() && r.P.CalleeFunc(info, call) == bc && len(call.Args) == 1 && prog.IdentObjPlain(info, call.Args[0]) == carrier {
+								sent = true
+							}
+							return true
+						})
+					}
+				}
 				if !stamped || !sent {
 					r.Fail(so.Name()+":watermark-case", cc.Pos(), nil, "the watermark case must stamp Timestamp = CurrentWatermark() and broadcast it (stamped=%v sent=%v)", stamped, sent)
 				}
@@ -350,6 +386,22 @@ func init() {
 						if inner, ok := isCallToNamed(info, call.Args[0], "maps", "Values"); ok && len(inner.Args) == 1 && prog.SelField(info, inner.Args[0]) == ups {
 							if sel, ok := ast.Unparen(call.Args[1]).(*ast.SelectorExpr); ok && sel.Sel.Name == "Compare" && isSelectorOfType(info, sel, "time", "Time") {
 								okArgs = true
+							}
+							// the same comparator written out: func(a, b time.Time) int { return a.Compare(b) }
+							if lit, ok := ast.Unparen(call.Args[1]).(*ast.FuncLit); ok && len(lit.Body.List) == 1 && lit.Type.Params.NumFields() == 2 {
+								var ps []types.Object
+								for _, fld := range lit.Type.Params.List {
+									for _, n := range fld.Names {
+										ps = append(ps, info.Defs[n])
+									}
+								}
+								if ret, ok := lit.Body.List[0].(*ast.ReturnStmt); ok && len(ret.Results) == 1 && len(ps) == 2 {
+									if c2, ok := ast.Unparen(ret.Results[0]).(*ast.CallExpr); ok && len(c2.Args) == 1 {
+										if s2, ok := ast.Unparen(c2.Fun).(*ast.SelectorExpr); ok && s2.Sel.Name == "Compare" && prog.IdentObjPlain(info, s2.X) == ps[0] && prog.IdentObjPlain(info, c2.Args[0]) == ps[1] {
+											okArgs = true
+										}
+									}
+								}
 							}
 						}
 					}
